@@ -43,7 +43,7 @@ def clone(n):
     for f in n._fields:
         if hasattr(n, f):
             setattr(new, f, clone(getattr(n, f)))
-    for extra in ("ctype", "cast_to", "cdivision"):
+    for extra in ("ctype", "cast_to", "cast_from", "cdivision"):
         if hasattr(n, extra):
             setattr(new, extra, getattr(n, extra))
     new.lineno = getattr(n, "lineno", 0)
@@ -77,6 +77,9 @@ class _Canon(ast.NodeTransformer):
         f = norm(n.func)
         if f == "__cast__":
             to = getattr(n, "cast_to", "")
+            # N8: a cast between C integer types (widening `<long long>idx` of a C int) does not change the value
+            if to in INT_C and getattr(n, "cast_from", "") in INT_C:
+                return n.args[0]
             if to in INT_C:
                 return ast.Call(func=ast.Name(id="int", ctx=ast.Load()), args=n.args, keywords=[])
             return n.args[0]
